@@ -33,6 +33,9 @@ OF THIS SOFTWARE, EVEN IF ADVISED OF THE POSSIBILITY OF SUCH DAMAGE.
 #include <vector>
 #include <stdexcept>
 #include "common.hpp"
+#ifdef RANDOMX_VERIF
+#include "verif_hooks.hpp"
+#endif
 #include "jit_compiler_a64_static.hpp"
 
 namespace randomx {
@@ -45,6 +48,9 @@ namespace randomx {
 	typedef void(JitCompilerA64::*InstructionGeneratorA64)(Instruction&, uint32_t&);
 
 	class JitCompilerA64 {
+#ifdef RANDOMX_VERIF
+		friend struct randomx_verif::Access;
+#endif
 	public:
 		JitCompilerA64();
 		~JitCompilerA64();
